@@ -110,7 +110,7 @@ func genD(r *verifsim.Run) []*dConn {
 		c := &dConn{Brand: "flir", Model: []string{"lepton3", "lepton3.5", "boson"}[r.Draw(3)], Firmware: "1.2.3", Serial: r.Draw(100000)}
 		c.W, c.H = r.Range(1, 64), r.Range(1, 32)
 		c.FrameSize = r.OneOf(1, 2, 5, 64, 100, c.W*c.H*2, r.Range(1, 4096))
-		if r.Tier == "thorough" && r.Chance(1, 30) {
+		if r.Tier == "thorough" && r.Chance(1, 30) || r.Tier != "thorough" && r.Chance(1, 60) {
 			c.W, c.H, c.FrameSize = 640, 512, 640*512*2 // a real Boson frame (the 32 MiB write buffer fills after 51 frames)
 		}
 		c.Fps = r.OneOf(1, 1, 2, 9, 30, 60)
@@ -131,6 +131,12 @@ func genD(r *verifsim.Run) []*dConn {
 			if c.Chunks[k] < 1 {
 				c.Chunks[k] = 1
 			}
+			if c.FrameSize > 100000 && c.Chunks[k] < 16384 {
+				c.Chunks[k] = r.OneOf(16384, 65536, c.FrameSize-1, c.FrameSize, c.FrameSize+1, 2*c.FrameSize+3) // real-size frames are not sent byte by byte
+			}
+		}
+		if c.FrameSize > 100000 && r.Tier != "thorough" && c.N > 70 {
+			c.N = r.Range(53, 70) // just past the 32 MiB write buffer
 		}
 		c.Seed = uint64(r.Draw(1 << 30))
 		c.PauseAfter = -1
@@ -585,7 +591,8 @@ func runDRace(r *verifsim.Run) {
 		if len(txt) > 1800 {
 			txt = txt[:1800] + " …"
 		}
-		r.Violate("C18", "C18.race", sig, "data race between socket reader and disk writer: %s\n%s", sig, txt)
+		r.Logf("race report for %s:\n%s", sig, txt)
+		r.Violate("C18", "C18.race", sig, "data race between socket reader and disk writer (innermost repository functions of the two unordered accesses): %s", sig)
 	}
 	r.Probe("race-pass-run")
 	r.Nontrivial(fmt.Sprintf("%v", r.Seed))
